@@ -125,15 +125,17 @@ fn free_udp_port() -> u16 {
 }
 
 /// Timing knobs (C17 shortens the ICE disconnect threshold / grace so "peer vanished" is observable).
-#[derive(Clone, Copy, Debug)]
+#[derive(Clone, Debug)]
 pub struct Knobs {
     pub ice_disconnect_threshold: Option<Duration>,
     pub ice_disconnect_grace: Option<Duration>,
     pub ice_connection_timeout: Option<Duration>,
     pub sctp_max_buffered: Option<usize>,
+    /// runtime for every rustrtc task of endpoint P (resource measurement per endpoint)
+    pub p_runtime: Option<tokio::runtime::Handle>,
 }
 impl Default for Knobs {
-    fn default() -> Self { Knobs { ice_disconnect_threshold: None, ice_disconnect_grace: None, ice_connection_timeout: None, sctp_max_buffered: None } }
+    fn default() -> Self { Knobs { ice_disconnect_threshold: None, ice_disconnect_grace: None, ice_connection_timeout: None, sctp_max_buffered: None, p_runtime: None } }
 }
 
 fn free_tcp_port() -> u16 {
@@ -167,6 +169,7 @@ pub fn rtc_config(c: &Cfg, is_p: bool, k: &Knobs) -> RtcConfiguration {
     if let Some(d) = k.ice_disconnect_grace { r.ice_disconnect_grace = d; }
     if let Some(d) = k.ice_connection_timeout { r.ice_connection_timeout = d; }
     if let Some(n) = k.sctp_max_buffered { r.sctp_max_buffered_amount = n; }
+    if is_p && let Some(h) = &k.p_runtime { r.runtime_handle = Some(h.clone()); }
     r
 }
 
